@@ -12,8 +12,28 @@ import (
 type ParamDecl struct{ Name, Type string }
 
 type Clause struct {
-	E   SExpr
-	Src string
+	E      SExpr
+	Src    string
+	Reveal []string // opaque predicates whose definitions this clause's proof may use
+}
+
+// splitReveal: "reveal(P, Q) expr" -> (["P","Q"], "expr")
+func splitReveal(text string) ([]string, string) {
+	t := strings.TrimSpace(text)
+	if !strings.HasPrefix(t, "reveal(") {
+		return nil, text
+	}
+	i := strings.Index(t, ")")
+	if i < 0 {
+		return nil, text
+	}
+	var names []string
+	for _, n := range strings.Split(t[len("reveal("):i], ",") {
+		if n = strings.TrimSpace(n); n != "" {
+			names = append(names, n)
+		}
+	}
+	return names, strings.TrimSpace(t[i+1:])
 }
 
 type SpecFunc struct {
@@ -27,6 +47,7 @@ type SpecFunc struct {
 }
 
 type Pred struct {
+	Opaque bool // an uninterpreted atom except in the proof of clauses that reveal it
 	Name   string
 	Params []ParamDecl
 	Body   SExpr
@@ -44,6 +65,7 @@ type Lemma struct {
 	Uses     []string
 	Axiom    bool // assumed without proof (listed in trusted base)
 	Triggers [][]SExpr
+	Reveal   []string
 	Props    []string
 	Pkg      string
 	Src      string
@@ -121,8 +143,8 @@ func NewContractDB() *ContractDB {
 	return &ContractDB{Funcs: map[string]*FuncContract{}, Specs: map[string]*SpecFunc{}, Preds: map[string]*Pred{}, Lemmas: map[string]*Lemma{}, Regions: map[string][]string{}}
 }
 
-var topKW = map[string]bool{"spec": true, "pred": true, "def": true, "lemma": true, "axiom": true, "func": true, "assumed": true, "interface": true, "region": true, "guarded": true, "props": true, "purepkg": true, "table": true, "ginv": true}
-var clauseKW = map[string]bool{"requires": true, "ensures": true, "modifies": true, "nopanic": true, "nooverflow": true, "inline": true, "loop": true, "use": true, "mode": true, "by": true, "prop": true, "pure": true, "ghost": true, "nolocks": true, "writes": true, "writesonly": true, "trigger": true, "staged": true, "stagedinv": true, "unreachable": true}
+var topKW = map[string]bool{"spec": true, "pred": true, "def": true, "lemma": true, "axiom": true, "func": true, "assumed": true, "interface": true, "region": true, "guarded": true, "props": true, "purepkg": true, "table": true, "ginv": true, "opaque": true}
+var clauseKW = map[string]bool{"requires": true, "ensures": true, "modifies": true, "nopanic": true, "nooverflow": true, "inline": true, "loop": true, "use": true, "mode": true, "by": true, "prop": true, "pure": true, "ghost": true, "nolocks": true, "writes": true, "writesonly": true, "trigger": true, "staged": true, "stagedinv": true, "reveal": true, "unreachable": true}
 
 type rawItem struct {
 	kw      string
@@ -262,8 +284,8 @@ func (db *ContractDB) LoadContracts(path, pkgPath string) error {
 				return fmt.Errorf("%s: %v", where, err)
 			}
 			db.Tables = append(db.Tables, td)
-		case "spec", "pred", "def":
-			// name(params) [ret] = body
+		case "spec", "pred", "def", "opaque":
+			// name(params) [ret] = body        ("opaque name(params) = body": an opaque predicate)
 			eq := strings.Index(it.head, "=")
 			// find '=' not part of ==,<=,>=,!= : the first " = "
 			eq = strings.Index(it.head, " = ")
@@ -300,7 +322,7 @@ func (db *ContractDB) LoadContracts(path, pkgPath string) error {
 				if be == nil {
 					return fmt.Errorf("%s: pred without body", where)
 				}
-				db.Preds[name] = &Pred{Name: name, Params: params, Body: be, Src: it.head, Pkg: pkgPath}
+				db.Preds[name] = &Pred{Name: name, Params: params, Body: be, Src: it.head, Pkg: pkgPath, Opaque: it.kw == "opaque"}
 			}
 		case "lemma", "axiom":
 			lp := strings.Index(it.head, "(")
@@ -322,9 +344,9 @@ func (db *ContractDB) LoadContracts(path, pkgPath string) error {
 						return fmt.Errorf("%s: %v", where, err)
 					}
 					if c.kw == "requires" {
-						lm.Requires = append(lm.Requires, Clause{e, c.text})
+						lm.Requires = append(lm.Requires, Clause{E: e, Src: c.text})
 					} else {
-						lm.Ensures = append(lm.Ensures, Clause{e, c.text})
+						lm.Ensures = append(lm.Ensures, Clause{E: e, Src: c.text})
 					}
 				case "by":
 					// by induction v from e
@@ -342,6 +364,8 @@ func (db *ContractDB) LoadContracts(path, pkgPath string) error {
 					lm.Uses = append(lm.Uses, strings.Fields(c.text)...)
 				case "prop":
 					lm.Props = strings.Fields(c.text)
+				case "reveal":
+					lm.Reveal = append(lm.Reveal, strings.Fields(strings.ReplaceAll(c.text, ",", " "))...)
 				case "trigger":
 					// trigger e1, e2: instantiation pattern used when the lemma is handed to a
 					// solver as a quantified fact (several trigger clauses = alternative patterns)
@@ -395,18 +419,19 @@ func (db *ContractDB) LoadContracts(path, pkgPath string) error {
 							if err != nil {
 								return fmt.Errorf("%s: %v", where, err)
 							}
-							fc.Modifies = append(fc.Modifies, Clause{e, part})
+							fc.Modifies = append(fc.Modifies, Clause{E: e, Src: part})
 						}
 						continue
 					}
-					e, err := parseSpec(c.text)
+					rv, txt := splitReveal(c.text)
+					e, err := parseSpec(txt)
 					if err != nil {
 						return fmt.Errorf("%s: %v", where, err)
 					}
 					if c.kw == "requires" {
-						fc.Requires = append(fc.Requires, Clause{e, c.text})
+						fc.Requires = append(fc.Requires, Clause{e, c.text, rv})
 					} else {
-						fc.Ensures = append(fc.Ensures, Clause{e, c.text})
+						fc.Ensures = append(fc.Ensures, Clause{e, c.text, rv})
 					}
 				case "pure":
 					fc.HasModifies = true
@@ -446,7 +471,7 @@ func (db *ContractDB) LoadContracts(path, pkgPath string) error {
 							if err != nil {
 								return fmt.Errorf("%s: %v", where, err)
 							}
-							fc.Writes = append(fc.Writes, Clause{e, part})
+							fc.Writes = append(fc.Writes, Clause{E: e, Src: part})
 						}
 					}
 				case "inline":
@@ -480,17 +505,18 @@ func (db *ContractDB) LoadContracts(path, pkgPath string) error {
 					restText := strings.TrimSpace(strings.TrimPrefix(strings.TrimSpace(strings.TrimPrefix(c.text, fs[0])), fs[1]))
 					switch fs[1] {
 					case "invariant":
-						e, err := parseSpec(restText)
+						rv, txt := splitReveal(restText)
+						e, err := parseSpec(txt)
 						if err != nil {
 							return fmt.Errorf("%s: %v", where, err)
 						}
-						lc.Invariants = append(lc.Invariants, Clause{e, restText})
+						lc.Invariants = append(lc.Invariants, Clause{e, restText, rv})
 					case "decreases":
 						e, err := parseSpec(restText)
 						if err != nil {
 							return fmt.Errorf("%s: %v", where, err)
 						}
-						lc.Decreases = &Clause{e, restText}
+						lc.Decreases = &Clause{E: e, Src: restText}
 					case "unroll":
 						n, err := strconv.Atoi(restText)
 						if err != nil {
